@@ -32,6 +32,10 @@ REVIEWED = {
 
 
 def check(run):
+    # "a node that receives only this bundle reaches ... the same ready parents for the following window": the receiver's ready
+    # parents are computed by the parent-ready tracker from the bundle's certificates
+    from . import C07
+    C07.check(run, prefix="O18.6")
     prog = run.program("lib")
 
     # ------------------------------------------------------------------ O18.1
